@@ -7,7 +7,7 @@ Tie
     four ASCII readers are asserted to be the literals of the Lean model);
   * exact correspondence between the Lean models (run through Drivers/C04.lean) and pyyeti.nastran.op4:
       colstats  OP4._sparse_col_stats                      == Op4.colStats
-      enc       bytes written by op4.write(binary=True)    == Op4.encFileBytes   (or struct_error)
+      enc       bytes written by op4.write(binary=True)    == Op4.encFileBytesFx (the writer with _split_strings)
       dec-d     op4.load(into='list', sparse=False)        == Op4.decodeBytes    (the function of file_roundtrip_bytes)
       dec-s/a   op4.load(..., sparse=True/None)            == Op4.rdFile + cooOfPuts / sparseAuto
       dir       op4.dir                                    == Op4.dirWords
@@ -73,7 +73,7 @@ THEOREMS = [
         "coo_view_correct write_sparse_eq_write_dense denseMat_entry ensure_2d_shapes "
         "vector_input_is_row write_input_normalised plumb_spec write_replaces_file read_back_bits read_back_bits_subnormal "
         "read_back_bits_finite read_back_needs_17 dir_matches_load_ascii sparse_views_ascii "
-        # Props/C04Fix.lean: the repair candidates for F2 / F3 (patched writers, Model/Op4Fixed.lean)
+        # Props/C04Fix.lean: the binary nonbigmat writer with _split_strings (F2 repaired; Model/Op4Fixed.lean)
         "split_strings_spec nonbigmat_never_overflows_fixed nonbigmat_writes_fixed column_roundtrip_nonbigmat_fixed nonbigmat_unchanged_fixed file_writes_fixed file_roundtrip_binary_fixed write_domain_fixed file_roundtrip_binary_domain_fixed file_roundtrip_bytes_domain_fixed decOf_cases writer_eq_unsplit file_writer_eq_unsplit"
     ).split()
 ]
@@ -113,10 +113,11 @@ RULE = (
 ASSUMPTIONS = [
     "values are finite doubles; names are ASCII; digits between 1 and 73 (perline >= 1)",
     "binary: the writer's own domain (write_domain): dimensions <= 2^31 - 1, cols + 1, form and every column record length "
-    "12 + 8*elems / 4*(3 + nwords) below 2^31, nonbigmat strings with L + 1 < 32768 (F2); form is a non-negative integer",
+    "12 + 8*elems / 4*(3 + nwords) below 2^31, form is a non-negative integer (nonbigmat strings are split at 16383 // multiplier rows: every packed header fits)",
     "ASCII theorems: 6*rows < 10^8, columns + 1 < 10^8, form < 10^8 (every integer fits its 8-character field), "
-    "valid names of at most 8 characters, at least one matrix per file, every written value fits its field "
-    "(not negative with a 3-digit exponent: finding F3); the writer's ValueError above 99 999 999 rows is not modelled",
+    "valid names of at most 8 characters, at least one matrix per file (every finite double is admitted: a negative value "
+    "with a 3-digit exponent is written with one digit less, F3 repaired); the writer's ValueError above 99 999 999 rows is "
+    "not modelled",
     "ASCII reader model: no carriage returns, no underscores / inf / nan in numbers, announced perline and numlen "
     ">= 1, no negative row / column / length fields (the model answers `reject`; the harness never produces them)",
     "scipy.sparse inputs: double precision values in the duplicate-summing model (float32 / integer sparse inputs are "
@@ -137,20 +138,19 @@ PARTIAL = (
     "read_back_bits is per field ((pyFloat? (fmtE d b)).map decBits = some b for every finite double, digits 16..5000): "
     "the file-level statement follows entry by entry from file_roundtrip_ascii + ascii_entry_spec but is not restated; "
     "complex elements of the sparse read additionally pass through re + 1j*im (cooEntry); (5) dir / load on ASCII variants the writer never produces and files with carriage returns are outside "
-    "(C11); the ASCII writer's ValueError above 99 999 999 rows is not modelled; (6) REPAIR CANDIDATES for F2 / F3 "
-    "(corpus/c04_F2_candidate_fix.diff, corpus/c04_F3_candidate_fix.diff; /repo is not patched, the model of the check is "
-    "the present code): proved for the patched writers (Props/C04Fix.lean, Model/Op4Fixed.lean) are split_strings_spec, "
-    "nonbigmat_never_overflows_fixed, nonbigmat_writes_fixed, column_roundtrip_nonbigmat_fixed, nonbigmat_unchanged_fixed, "
-    "file_writes_fixed, file_roundtrip_binary_fixed, write_domain_fixed, file_roundtrip_binary_domain_fixed, "
-    "file_roundtrip_bytes_domain_fixed (F2: whole files at word level, on the true domain and at byte level - decodeBytes of "
-    "the patched bytes = canonFile -, no `stringsFit` hypothesis) and "
-    "fmtE_width_fixed, width_fixed, field_roundtrip_fixed, ascii_value_half_unit_fixed, ascii_values_roundtrip_fixed, "
-    "file_roundtrip_ascii_fixed, ascii_entry_spec_fixed, decOfFx_zero (F3: fields, value blocks and whole files, no `Fits` "
-    "hypothesis, every digits 1..73 - with digits = 1 the fallback prints one digit and no point, pyFloat_sciChars0; the "
-    "whole-file chain is the chain of file_roundtrip_ascii copied into the namespace Op4AFx - Lemmas/Op4FixedChain{A,B,C}.lean "
-    "- with the three facts about the formatter replaced); NOT done for the candidates: read_back_bits for the "
-    "patched writer (it holds for a `Wide` value from 17 digits on only), the sparse views and the sparse-input branch "
-    "of the patched writers (tied by the candidate checks, not proved)"
+    "(C11); the ASCII writer's ValueError above 99 999 999 rows is not modelled; (6) the binary nonbigmat writer with "
+    "_split_strings (F2 repaired in /repo, 27f7d6b) is Model/Op4Fixed.lean encMatWordsFx / writeFileWordsFx: the whole-file "
+    "theorems are proved for it without any hypothesis on string lengths (Props/C04Fix.lean: file_writes_fixed, "
+    "file_roundtrip_binary_fixed, write_domain_fixed, file_roundtrip_binary_domain_fixed, file_roundtrip_bytes_domain_fixed, "
+    "column_roundtrip_nonbigmat_fixed, split_strings_spec, nonbigmat_never_overflows_fixed); the theorems of Props/C04.lean "
+    "that mention encMatWords / writeFileWords (sparse inputs write_sparse_eq_write_dense, coo_view_correct, sparse_auto_rule, "
+    "write_input_normalised, file_roundtrip_bytes, file_writes_iff, C11's skip_positions) are about the encoder WITHOUT the "
+    "split, which is the writer whenever no run of non-zero rows exceeds 16383 // multiplier (writer_eq_unsplit, "
+    "file_writer_eq_unsplit): for matrices with longer strings those statements are tied by the enc / dec streams (16384-row "
+    "files, ndarray and scipy.sparse input, three read modes), not proved; the driver's wr stream uses the unsplit "
+    "writeAllWords (its inputs have at most 40 rows); (7) F3 is swapped in place (fmtE = numform(value)): read_back_bits* "
+    "carry the hypothesis Wide d b = false or 17 <= d - a negative value with a 3-digit exponent written with the default 16 "
+    "digits reads back to 16 significant digits, not bit-identical"
 )
 MANIFEST = {
     "level_text": "Proof (Lean 4, kernel-checked, standard axioms) about exact models of op4.write / op4.load / op4.dir: the "
@@ -159,7 +159,7 @@ MANIFEST = {
     "Binary: for every non-empty list of matrices, layout and byte order on the writer's own domain (every integer handed "
     "to struct.pack fits: write_domain), decodeBytes of the written bytes is the written names (lower-cased), shapes, forms, "
     "types and columns (file_roundtrip_bytes_domain / file_roundtrip_binary_domain; -0.0 outside written strings reads as "
-    "+0.0); the writer fails exactly outside that domain or when a nonbigmat string has L+1 >= 32768 (pack_fits_i32, F2). "
+    "+0.0); nonbigmat strings are split at 16383 // multiplier rows (_split_strings, F2 repaired: split_strings_spec, nonbigmat_never_overflows_fixed), so the writer fails only outside that domain (file_writes_fixed; the whole-file theorems for the splitting writer are the _fixed ones of Props/C04Fix.lean, those for the unsplit encoder coincide with it below 16384-row strings: writer_eq_unsplit). "
     "sparse=True returns exactly the stored elements as (row, col, value) triplets in file order - the non-zero elements "
     "for the sparse layouts, everything from the first to the last non-zero row for the dense layout - and its .toarray() "
     "is the dense read up to the sign of zeros (coo_view_correct, storedIdx_spec); sparse=None returns a sparse matrix iff "
@@ -170,10 +170,11 @@ MANIFEST = {
     "vector_input_is_row: a 1-d array is one row); every call replaces the file. ASCII: for every non-empty list of "
     "matrices and digits 1..73, loadAscii of the written text returns per matrix the name field, rows, columns, form, type "
     "and announced format, and every non-zero element reads back as exactly the printed decimal (file_roundtrip_ascii, "
-    "ascii_entry_spec), which is within half a unit of the last printed digit (ascii_value_half_unit) - under the "
-    "hypothesis that every value fits its field, which holds iff not (x<0 and |exp10|>=100) (fmtE_width, F3); with "
+    "ascii_entry_spec), which is within half a unit of the last printed digit (ascii_value_half_unit) - for EVERY "
+    "finite double: a negative value with a 3-digit exponent, whose '%E' text is one character wider than the field, is "
+    "printed with one digit less (numform(value), F3 repaired: fmtE_width; the half unit is then of that digit); with "
     "digits >= 16 the decimal rounds back to the bit-identical double, for every finite double incl. subnormals and "
-    "signed zeros (read_back_bits, read_back_bits_subnormal, read_back_bits_finite; 16 significant digits are not enough: "
+    "signed zeros - for a negative value with a 3-digit exponent from digits >= 17 on - (read_back_bits, read_back_bits_subnormal, read_back_bits_finite; 16 significant digits are not enough: "
     "read_back_needs_17); the sparse views of ASCII files are the same triplets / rule with printed decimals "
     "(sparse_views_ascii); dir lists exactly what load returns (dir_matches_load_ascii; binary: C11). ascii_slicing, "
     "ascii_column_roundtrip_{dense,bigmat,nonbigmat} for every partition into strings; _sparse_col_stats yields exactly "
@@ -189,10 +190,9 @@ MANIFEST = {
     "code (the sparse path refuses where the ndarray path refuses: write_sparse_eq_write_dense has no size hypothesis); "
     "the regression is guarded by the oracle: _oracle_f49_quick in every run (the inner binary writer on a file object "
     "that stops after the column header: no large memory), _oracle_f49 (the full 2 GiB write, then dir) in the thorough tier. "
-    "Repair candidates for F2 and F3 (not applied to /repo): corpus/c04_F{2,3}_candidate_fix.diff with `_fixed` theorems in "
-    "Props/C04Fix.lean about the patched writers of Model/Op4Fixed.lean; the patched text (scratch worktree) is tied to that "
-    "model by corpus/c04_F{2,3}_candidate_check.py (exact bytes / text / fields, evidence in corpus/c04_F{2,3}_candidate_"
-    "evidence.json), outside ./check. "
+    "Findings F2 and F3 are repaired in /repo (27f7d6b, 7ee1407) with the patches of corpus/c04_F{2,3}_candidate_fix.diff; the "
+    "models follow the repaired code and the oracle keeps both families as regression guards (FIXED_F2, FIXED_F3); the fmt "
+    "stream compares the Lean fmtE with the function numform that _write_ascii_header returns. No open finding. "
     "Trusted: Lean kernel; propext, Classical.choice, Quot.sound; the Python harness; CPython / numpy / scipy as listed.",
     "technique": "Lean 4 proof (induction over lines/strings/columns/matrices, omega on the packed header, bisection "
     "invariant for the %E exponent, rational arithmetic for the half-unit bound and for round-to-nearest of a decimal "
@@ -889,7 +889,7 @@ def _rand_field(rng):
 
 
 def _big_string_cases():
-    """single strings of 16383 / 16384 rows (both sides of the F2 boundary), real and complex"""
+    """single strings of 16383 / 16384 rows (both sides of the _split_strings boundary; F2 before its repair), real and complex"""
     out = []
     for rows, cplx, at in ((16383, False, 0), (16384, False, 0), (8191, True, 3), (8192, True, 3)):
         D = np.zeros((rows + at + 2, 1), complex if cplx else float)
